@@ -161,6 +161,15 @@ def emit(repo, spec, H):
                     out.append("Definition %s_%s : Z := %d." % (prefix, fn.lower(), c))
             out.append("(* %s: functions matching %s with statements /%s/ *)" % (f, fnpat, stmt.replace("*)", "* )")))
             out.append("Definition %s_count : Z := %d." % (prefix, n))
+        elif kind == "counts_in":
+            # number of statements matching a pattern in EACH of the listed functions (0 included):
+            # Definition <prefix>_<fn> : Z := count
+            _, f, fns, stmt, prefix = ent
+            txt = H.src(repo, f)
+            out.append("(* %s: statements /%s/ per function *)" % (f, stmt.replace("*)", "* )").replace("(*", "( *")))
+            for fn in fns:
+                body = H.func_body(txt, fn)
+                out.append("Definition %s_%s : Z := %d." % (prefix, fn.lower(), len(re.findall(stmt, body))))
         else:
             raise ValueError("unknown structure kind %r" % kind)
     return out
